@@ -63,6 +63,61 @@ def liftStep (n : Nat) (f g cF' cG' : List Int) : List Int × List Int :=
 def ntruLhs (n : Nat) (f g F G : List Int) : List Int := subL (negacyc n f G) (negacyc n g F)
 
 
+/-! ### `vector_karatsuba` and `reduce_by_cyclotomic` of polynomial.rs: the product as the code computes it -/
+
+/-- addition of coefficient vectors of different lengths (the shorter one extended by zeros): `p[i] += q[i]` -/
+def addPad : List Int → List Int → List Int
+  | [], b => b
+  | a, [] => a
+  | x :: a, y :: b => (x + y) :: addPad a b
+
+def negL (a : List Int) : List Int := a.map (- ·)
+
+/-- the schoolbook double loop `product[i + j] += l * r` -/
+def school : List Int → List Int → List Int
+  | [], _ => []
+  | [x], b => smulL x b
+  | x :: xs, b => addPad (smulL x b) (0 :: school xs b)
+
+/-- `vector_karatsuba` for operands of equal length n with n ≤ 8 or n even at every level above 8 (the real function
+    indexes out of bounds otherwise): fuel bounds the recursion depth -/
+def karatsubaGo : Nat → List Int → List Int → List Int
+  | 0, a, b => school a b
+  | fuel + 1, a, b =>
+    let n := a.length
+    if n ≤ 8 then school a b else
+    let h := n / 2
+    let lo := karatsubaGo fuel (a.take h) (b.take h)
+    let hi := karatsubaGo fuel (a.drop h) (b.drop h)
+    let mid := subL (karatsubaGo fuel (addL (a.take h) (a.drop h)) (addL (b.take h) (b.drop h))) (addL lo hi)
+    addPad (addPad (addPad (List.replicate (2 * n - 1) 0) lo) (List.replicate h 0 ++ mid)) (List.replicate n 0 ++ hi)
+
+def karatsuba (a b : List Int) : List Int := karatsubaGo a.length a b
+
+/-- the lengths on which `vector_karatsuba` does not index out of bounds -/
+def karatsubaOk : Nat → Nat → Bool
+  | 0, n => n ≤ 8 && 0 < n
+  | fuel + 1, n => if n ≤ 8 then 0 < n else n % 2 == 0 && karatsubaOk fuel (n / 2)
+
+/-- `reduce_by_cyclotomic(n)`: fold the blocks of n coefficients with alternating signs -/
+def reduceCycGo (n : Nat) : Nat → List Int → List Int
+  | 0, _ => List.replicate n 0
+  | fuel + 1, p => if p.isEmpty then List.replicate n 0 else
+      addPad (List.replicate n 0) (addPad (p.take n) (negL (reduceCycGo n fuel (p.drop n))))
+
+def reduceCyc (n : Nat) (p : List Int) : List Int := reduceCycGo n (p.length + 1) p
+
+/-- the product as the code computes it: `a.karatsuba(b).reduce_by_cyclotomic(n)` -/
+def kmul (n : Nat) (a b : List Int) : List Int := reduceCyc n (karatsuba a b)
+
+
+/-- the lifting step and the Babai step exactly as math.rs computes them: `karatsuba(..).reduce_by_cyclotomic(n)` -/
+def liftStepImpl (n : Nat) (f g cF' cG' : List Int) : List Int × List Int :=
+  (kmul n (lift cF') (adjoint g), kmul n (lift cG') (adjoint f))
+
+def babaiStepImpl (n : Nat) (f g : List Int) (FG : List Int × List Int) (k : List Int) : List Int × List Int :=
+  (subL FG.1 (kmul n k f), subL FG.2 (kmul n k g))
+
 /-! the extended Euclid of `math.rs::xgcd` (num-bigint's `/` truncates toward zero: `Int.tdiv`) -/
 theorem xgcd_dec (x r : Int) (h : ¬ r = 0) : (x - Int.tdiv x r * r).natAbs < r.natAbs := by
   have : x - Int.tdiv x r * r = Int.tmod x r := by rw [Int.tmod_def, Int.mul_comm]
